@@ -186,6 +186,20 @@ let run_reg line =
     | ["L"] -> step (cls !s)
     | ["O"] -> step (pop !s)
     | ["Z"] -> show !s []
+    | "K" :: name :: rest ->
+        (* the command layer (CmdModel): state change, callbacks and the number a query reports *)
+        let v = match rest with [x] -> int_to_n (int_of_string x) | _ -> N0 in
+        let c = CmdModel.(match name with
+          | "CLS" -> KCls | "ESE" -> KEse v | "ESEQ" -> KEseQ | "ESRQ" -> KEsrQ | "OPC" -> KOpc | "SRE" -> KSre v | "SREQ" -> KSreQ
+          | "STBQ" -> KStbQ | "OPEREVQ" -> KOperEvQ | "OPERCONDQ" -> KOperCondQ | "OPERENQ" -> KOperEnQ | "OPEREN" -> KOperEn v
+          | "QUESEVQ" -> KQuesEvQ | "QUESCONDQ" -> KQuesCondQ | "QUESENQ" -> KQuesEnQ | "QUESEN" -> KQuesEn v
+          | "PRESET" -> KPreset | "ERRNEXTQ" -> KErrNextQ | "ERRCOUNTQ" -> KErrCountQ | _ -> raise Unsupported) in
+        let r = CmdModel.cmd_resp !s c in
+        let (s', e) = CmdModel.cmd_do !s c in
+        s := s';
+        L.iter (function EvE c -> if not !reg_noerr then Buffer.add_string buf (Printf.sprintf " E%d" (z_to_int c)) | EvQ v -> Buffer.add_string buf (Printf.sprintf " Q%d" (n_to_int v))) e;
+        (match r with Some n -> Buffer.add_string buf " W"; S.iter (fun ch -> Buffer.add_string buf (Printf.sprintf "%02x" (Char.code ch))) (string_of_int (n_to_int n) ^ "\r\n") | None -> ());
+        show s' []
     | _ -> raise Unsupported
   and _unused = () in
   L.iter (fun part ->
